@@ -58,7 +58,7 @@ def _shape_structure(kind, NJ, NOPS, NM, unequal):
     return ops_per_job, starts, ends, total
 
 
-def fjsp_job(job_id, kind="fjsp", NJ=2, NOPS=2, NM=2, mask_no_ops=True, unequal=False, B=1, elig="all", source="hand", shard=None, compare_solo=False, source_filter=None):
+def fjsp_job(job_id, kind="fjsp", NJ=2, NOPS=2, NM=2, mask_no_ops=True, unequal=False, B=1, elig="all", source="hand", shard=None, compare_solo=False, gen_mas=None, source_filter=None):
     """elig: 'all' = every machine eligible for every operation; 'symbolic' = arbitrary eligibility pattern (forked);
     'first' = machine 0 only for operation 0, all machines otherwise (an asymmetric fixed pattern)"""
     E = explore.EXP
@@ -73,7 +73,8 @@ def fjsp_job(job_id, kind="fjsp", NJ=2, NOPS=2, NM=2, mask_no_ops=True, unequal=
     ctx.stubs.add("fjsp.utils.calc_lower_bound (policy feature) replaced by zeros: divides by a state-dependent count; does not influence masks, times or reward")
     ops_per_job, starts, ends, NO = _shape_structure(kind, NJ, NOPS, NM, unequal)
     pad_to = NJ * NOPS
-    gen = types.SimpleNamespace(num_mas=NM, num_jobs=NJ, max_ops_per_job=NOPS, n_ops_max=pad_to)
+    # gen_mas: the env is built for another machine count than the instance it is reset with (it re-reads the sizes at reset)
+    gen = types.SimpleNamespace(num_mas=gen_mas or NM, num_jobs=NJ, max_ops_per_job=NOPS, n_ops_max=pad_to)
     cls = jmod.JSSPEnv if kind == "jssp" else mod.FJSPEnv
     if source == "generator":
         # instances come from the REAL bundled generator (sampler stubs return fresh symbols in the documented range)
@@ -190,7 +191,7 @@ def _run_episode(E, ctx, env, kind, mask_no_ops, td, orig, starts, ends, NO, NM,
             if E_.check(neg) == z3.sat:
                 m = E_.model()
                 return [{"kind": "script", "path": core.ROOT + "/vf/torch_side", "module": "sched_side", "func": "run_fjsp", "model_kind": "plain", "mode": "C07",
-                         "params": {"kind": kind, "NJ": NJ, "NOPS": NOPS, "NM": NM, "mask_no_ops": mask_no_ops, "starts": starts, "ends": ends, "B": B,
+                         "params": {"kind": kind, "NJ": NJ, "NOPS": NOPS, "NM": NM, "gen_mas": int(getattr(env.generator, "num_mas", NM)), "mask_no_ops": mask_no_ops, "starts": starts, "ends": ends, "B": B,
                                     "proc": [[[float(core.model_value(m, orig[b, mm, o])) for o in range(pad_to)] for mm in range(NM)] for b in range(B)],
                                     "pad": pad, "actions": [list(a) for a in trace]}}]
             return []
@@ -290,7 +291,7 @@ def _and_all(xs):
     return acc
 
 
-def ffsp_job(job_id, NJ=2, NS=2, NMA=1, D=2, flatten=True, big=None, source_filter=None):
+def ffsp_job(job_id, NJ=2, NS=2, NMA=1, D=2, flatten=True, big=None, B=1, source_filter=None):
     E = explore.EXP
     ctx = core.Ctx(job_id)
     w = world.make_world(source_filter=source_filter)
@@ -298,25 +299,26 @@ def ffsp_job(job_id, NJ=2, NS=2, NMA=1, D=2, flatten=True, big=None, source_filt
     gen = types.SimpleNamespace(num_stage=NS, num_machine=NMA, num_job=NJ, num_machine_total=NS * NMA, flatten_stages=flatten)
     env = mod.FFSPEnv(generator=gen)
     NM = NS * NMA
-    ctx.bounds = {"env": "ffsp", "jobs": NJ, "stages": NS, "machines_per_stage": NMA, "durations": f"symbolic ints in [1,{D}]" + (f" or {big}" if big else "")}
+    ctx.bounds = {"env": "ffsp", "jobs": NJ, "stages": NS, "machines_per_stage": NMA, "B": B, "durations": f"symbolic ints in [1,{D}]" + (f" or {big}" if big else "")}
     ctx.assumptions.add("FFSP durations are integers in [1,D]: its time-stepped loop forks once per value, so inside this bound the solver decides per concrete duration vector")
-    bound = 4 * NJ * NS * ((big or D) + 1)
+    bound = 4 * NJ * NS * ((big or D) + 1) * B
 
     def harness():
-        rt = T.sym_tensor("d", (1, NJ, NM), T.int64)
+        rt = T.sym_tensor("d", (B, NJ, NM), T.int64)
         for x in rt.a.reshape(-1):
             # `big`: one additional, much longer duration (heterogeneous machines: a job may be far slower on a machine it ends up not using)
             E.assume(z3.And(x >= 1, x <= D) if big is None else z3.Or(z3.And(x >= 1, x <= D), x == big))
-        td = env.reset(TensorDict({"run_time": rt}, batch_size=[1]))
+        td = env.reset(TensorDict({"run_time": rt}, batch_size=[B]))
         steps = 0
         trace = []
 
         def cexb(E_, neg):
             if E_.check(neg) == z3.sat:
                 m = E_.model()
+                rts = [[[int(core.model_value(m, rt.a[b, j, mm])) for mm in range(NM)] for j in range(NJ)] for b in range(B)]
                 return [{"kind": "script", "path": core.ROOT + "/vf/torch_side", "module": "sched_side", "func": "run_ffsp", "model_kind": "plain", "mode": "C07",
-                         "params": {"NJ": NJ, "NS": NS, "NMA": NMA, "flatten": flatten, "run_time": [[int(core.model_value(m, rt.a[0, j, mm])) for mm in range(NM)] for j in range(NJ)],
-                                    "actions": list(trace)}}]
+                         "params": {"NJ": NJ, "NS": NS, "NMA": NMA, "flatten": flatten, "B": B, "run_time": rts[0], "run_times": rts,
+                                    "actions": [r[0] for r in trace] if B == 1 else [list(r) for r in trace]}}]
             return []
 
         while True:
@@ -324,15 +326,18 @@ def ffsp_job(job_id, NJ=2, NS=2, NMA=1, D=2, flatten=True, big=None, source_filt
                 if k in td.keys():
                     concretize(E, td[k], 0, 64)
             ctx.states += 1
-            if td["done"].a.reshape(-1)[0]:
+            dn = [bool(x) for x in td["done"].a.reshape(-1)]
+            if all(dn):
                 break
-            cands = [i for i, m in enumerate(td["action_mask"].a[0]) if m]
-            if not cands:
-                ctx.prove(E, f"ffsp: an action is offered while unfinished (after {steps} steps)", False, cexb)
-                raise PathAbort()
-            a = cands[E.choose(len(cands))]
-            trace.append(a)
-            td.set("action", T.tensor([a]))
+            row = []
+            for b in range(B):
+                cands = [i for i, m in enumerate(td["action_mask"].a[b]) if m]
+                if not cands:
+                    ctx.prove(E, f"ffsp: an action is offered {'while unfinished' if not dn[b] else 'to a finished row of an unfinished batch'} (after {steps} steps)", False, cexb)
+                    raise PathAbort()
+                row.append(cands[E.choose(len(cands))] if not dn[b] else cands[-1])
+            trace.append(row)
+            td.set("action", T.tensor(row))
             try:
                 td = env.step(td)["next"]
             except ENV_ERRORS as e:
@@ -344,35 +349,37 @@ def ffsp_job(job_id, NJ=2, NS=2, NMA=1, D=2, flatten=True, big=None, source_filt
             if steps > bound:
                 ctx.prove(E, f"ffsp: episode finishes within {bound} steps", False, cexb)
                 raise PathAbort()
-        sch = td["schedule"].a[0]  # [machine, job] start times (-999999 = never)
-        named, start, end = [], {}, {}
-        for j in range(NJ):
-            for s in range(NS):
-                used = [m for m in range(s * NMA, (s + 1) * NMA) if not (not is_sym(sch[m, j]) and sch[m, j] < 0)]
-                others = [m for m in range(NM) if not (s * NMA <= m < (s + 1) * NMA)]
-                if len(used) != 1:
-                    named.append((f"job {j} is processed exactly once in stage {s} (found {len(used)} machines)", False))
-                    continue
-                m = used[0]
-                start[j, s] = (sch[m, j], m)
-                end[j, s] = T.s_add(sch[m, j], rt.a[0, j, m])
-            for s in range(1, NS):
-                if (j, s) in start and (j, s - 1) in end:
-                    named.append((f"job {j}: stage {s} starts after stage {s - 1} finished", s_ge(start[j, s][0], end[j, s - 1])))
-        keys = sorted(start)
-        for i1, k1 in enumerate(keys):
-            for k2 in keys[i1 + 1:]:
-                if start[k1][1] == start[k2][1]:
-                    named.append((f"machine {start[k1][1]} never runs jobs {k1[0]} and {k2[0]} at the same time",
-                                  s_or(s_le(end[k1], start[k2][0]), s_le(end[k2], start[k1][0]))))
-        for k in keys:
-            named.append((f"job {k[0]} stage {k[1]} starts at a non-negative time", s_ge(start[k][0], 0)))
-        if end:
-            mk = None
-            for v in end.values():
-                mk = v if mk is None else T.s_max(mk, v)
-            rew = td["reward"].a.reshape(-1)[0]
-            named.append(("reward == -(latest completion time)", s_eq(rew, T.s_neg(mk))))
+        named = []
+        for b in range(B):
+            sch = td["schedule"].a[b]  # [machine, job] start times (-999999 = never)
+            start, end = {}, {}
+            tag = f"row {b}: " if B > 1 else ""
+            for j in range(NJ):
+                for s in range(NS):
+                    used = [m for m in range(s * NMA, (s + 1) * NMA) if not (not is_sym(sch[m, j]) and sch[m, j] < 0)]
+                    if len(used) != 1:
+                        named.append((f"{tag}job {j} is processed exactly once in stage {s} (found {len(used)} machines)", False))
+                        continue
+                    m = used[0]
+                    start[j, s] = (sch[m, j], m)
+                    end[j, s] = T.s_add(sch[m, j], rt.a[b, j, m])
+                for s in range(1, NS):
+                    if (j, s) in start and (j, s - 1) in end:
+                        named.append((f"{tag}job {j}: stage {s} starts after stage {s - 1} finished", s_ge(start[j, s][0], end[j, s - 1])))
+            keys = sorted(start)
+            for i1, k1 in enumerate(keys):
+                for k2 in keys[i1 + 1:]:
+                    if start[k1][1] == start[k2][1]:
+                        named.append((f"{tag}machine {start[k1][1]} never runs jobs {k1[0]} and {k2[0]} at the same time",
+                                      s_or(s_le(end[k1], start[k2][0]), s_le(end[k2], start[k1][0]))))
+            for k in keys:
+                named.append((f"{tag}job {k[0]} stage {k[1]} starts at a non-negative time", s_ge(start[k][0], 0)))
+            if end:
+                mk = None
+                for v in end.values():
+                    mk = v if mk is None else T.s_max(mk, v)
+                rew = td["reward"].a.reshape(-1)[b]
+                named.append((f"{tag}reward == -(latest completion time)", s_eq(rew, T.s_neg(mk))))
         for nm, cond in named:
             ctx.prove(E, f"ffsp: {nm}", cond, cexb)
 
